@@ -606,7 +606,15 @@ namespace Pistache::Http::Header
         } while (!cursor.eof());
     }
 
-    void Accept::write(std::ostream& /*os*/) const { }
+    void Accept::write(std::ostream& os) const
+    {
+        for (std::vector<Mime::MediaType>::size_type i = 0; i < mediaRange_.size(); ++i)
+        {
+            if (i > 0)
+                os << ", ";
+            os << mediaRange_[i].toString();
+        }
+    }
 
     void AccessControlAllowOrigin::parse(const std::string& data) { uri_ = data; }
 
